@@ -5,7 +5,7 @@ spec: {"service_module", "client", "transport": "grpc"|"grpc_asyncio"|"rest", "m
        "request": {"cls": "pkg.types:Name", "b64": ...},
        "call_kwargs": {"timeout": 20.0, "metadata": [[k, v]], "retry": {"codes": [...]}},
        "grpc_script": {path: [reply...]}, "http_script": [reply...],
-       "mode": "items" | "pages", "item_field": name, "is_map": bool, "attr_names": [names]}
+       "mode": "items" | "pages" | "items-break" | "pages-break", "break_after": n, "item_field": name, "is_map": bool, "attr_names": [names]}
 Per call the result holds what the *caller* sees (items, or per-page snapshots taken through the pager's own attribute
 lookup at each yield) and what the *servers* saw (every call, raw).  Nothing here imports gapic."""
 import asyncio, inspect, json, sys, traceback
@@ -55,12 +55,19 @@ def run_sync(spec, gs, hs, pkg):
     req = D.build_message(D.resolve(spec["request"]["cls"]), spec["request"]["b64"])
     pager = getattr(client, spec["method"])(request=req, **call_kwargs(spec, False))
     out = {"type": type(pager).__name__, "before": snapshot(pager, spec)}
-    if spec["mode"] == "items":
-        out["items"] = [D.encode_value(list(x) if isinstance(x, tuple) else x) for x in pager]
+    limit = spec.get("break_after")
+    if spec["mode"] in ("items", "items-break"):
+        out["items"] = []
+        for x in pager:
+            out["items"].append(D.encode_value(list(x) if isinstance(x, tuple) else x))
+            if spec["mode"] == "items-break" and len(out["items"]) >= limit:
+                break           # the consumer walks away in the middle of the iteration
     else:
         out["pages"] = []
-        for page in pager.pages:
+        for k, page in enumerate(pager.pages):
             out["pages"].append({"items": page_items(page, spec), "snapshot": snapshot(pager, spec)})
+            if spec["mode"] == "pages-break" and k >= limit:
+                break
     out["final"] = snapshot(pager, spec)
     return out
 
@@ -72,12 +79,21 @@ async def run_async(spec, gs, hs, pkg):
     if inspect.isawaitable(pager):
         pager = await pager
     out = {"type": type(pager).__name__, "before": snapshot(pager, spec)}
-    if spec["mode"] == "items":
-        out["items"] = [D.encode_value(list(x) if isinstance(x, tuple) else x) async for x in pager]
+    limit = spec.get("break_after")
+    if spec["mode"] in ("items", "items-break"):
+        out["items"] = []
+        async for x in pager:
+            out["items"].append(D.encode_value(list(x) if isinstance(x, tuple) else x))
+            if spec["mode"] == "items-break" and len(out["items"]) >= limit:
+                break
     else:
         out["pages"] = []
+        k = 0
         async for page in pager.pages:
             out["pages"].append({"items": page_items(page, spec), "snapshot": snapshot(pager, spec)})
+            if spec["mode"] == "pages-break" and k >= limit:
+                break
+            k += 1
     out["final"] = snapshot(pager, spec)
     return out
 
